@@ -166,6 +166,16 @@ func genC04(e *emitter, r *rng, thorough bool) {
 		ops = append(ops, "c1:3", "c1:4", "t1", fmt.Sprintf("c%d:3", 3+3*k+2))
 		e.emit("revisit.public-parents", "xkq"+xkLine("seed:"+hx(r.bytes(32))+":0", ops)[2:])
 	}
+	// a derived / neutered / re-parsed key is moved to another network: its relatives, and masters made afterwards, keep theirs
+	for i := 0; i < 4; i++ {
+		root := "seed:" + hx(r.bytes(32)) + ":" + fmt.Sprint(i%2)
+		e.emit("setnet.relatives", xkLine(root, []string{"c0:2147483648", fmt.Sprintf("s1:%d", 1-i%2), "n0", "c0:1", "n1", "t0", fmt.Sprintf("s3:%d", 2+i), "n0", "c0:2", "t1", fmt.Sprintf("s6:%d", 1-i%2), "n0"}))
+		e.emit("setnet.then-new-master", xkLine(root, []string{"s0:1", "n0"}))
+		// ... and to a network that shares its private version bytes with another one: Neuter of OTHER keys keeps following the registry
+		tw := len(nets) - 1
+		e.emit("setnet.twin-network", xkLine("seed:"+hx(r.bytes(32))+":2", []string{"n0", "c0:1", fmt.Sprintf("s2:%d", tw), "n0", "n2", fmt.Sprintf("s1:%d", tw), "n0", "c0:2", "n6", "t0", "n8"}))
+		e.emit("setnet.then-new-master", xkLine(root, []string{"n0", "c0:0"}))
+	}
 	// depth-255 chain
 	{
 		var ops []string
@@ -202,6 +212,20 @@ func serXKey(version []byte, depth byte, fp []byte, childNum uint32, chain, keyD
 }
 
 func genC08(e *emitter, r *rng, thorough bool) {
+	for i := 0; i < 3; i++ {
+		if mk, err := bip32.NewMaster(r.bytes(32), nets[i%len(nets)].params); err == nil {
+			ks := mk.String()
+			if i == 2 {
+				if nk, err := mk.Neuter(); err == nil {
+					ks = nk.String()
+				}
+			}
+			for _, sp := range []string{" ", "\t", "\n", "\r\n", "\v", "\f", "\u00a0", "\u2028", "\x00"} {
+				e.emit("fromstring.whitespace-wrapped", xkLine("str:"+hx([]byte(sp+ks)), nil))
+				e.emit("fromstring.whitespace-wrapped", xkLine("str:"+hx([]byte(ks+sp)), nil))
+			}
+		}
+	}
 	n := 20
 	if thorough {
 		n = 250
@@ -397,6 +421,14 @@ func genC08(e *emitter, r *rng, thorough bool) {
 }
 
 func genC18(e *emitter, r *rng, thorough bool) {
+	// SetNet to a parameter set that shares its private version bytes with a registered network (and is registered itself,
+	// earlier): whatever SetNet does, Neuter of the OTHER keys keeps following the registry as it stood
+	for i := 0; i < 4; i++ {
+		tw := len(nets) - 1
+		root := "seed:" + hx(r.bytes(32)) + ":2"
+		e.emit("setnet.twin-network", xkLine(root, []string{"n0", "c0:1", fmt.Sprintf("s2:%d", tw), "n0", "n2", fmt.Sprintf("s1:%d", tw), "n0", "c0:2", "n6", "t0", "n8"}))
+		e.emit("setnet.twin-network.quiet", "xkq"+xkLine(root, []string{"c0:1", fmt.Sprintf("s1:%d", tw), "n0", "c0:2", "n3"})[2:])
+	}
 	maxLen := 3
 	if thorough {
 		maxLen = 4
@@ -518,7 +550,7 @@ func genC18(e *emitter, r *rng, thorough bool) {
 }
 
 func genC07(e *emitter, r *rng, thorough bool) {
-	passes := [][]byte{{}, []byte("TREZOR"), []byte("pass word"), []byte("éà 가"), []byte(strings.Repeat("long passphrase ", 64))}
+	passes := [][]byte{{}, []byte("TREZOR"), []byte("smørrebrød"), []byte("ĐŁøß ﬁ Å ½ ①"), []byte("e\u0301"), []byte("\u00a0x\u3000"), []byte("pass word"), []byte("éà 가"), []byte(strings.Repeat("long passphrase ", 64))}
 	for l := 0; l <= 40; l++ {
 		for t := 0; t < 3; t++ {
 			ent := r.bytes(l)
